@@ -302,3 +302,20 @@ def natural_key(chrom):
     if c in ("M", "MT"):
         return (3, 0, "")
     return (4, 0, c)
+
+
+def midvariance_branch_tied(xs, c=9.0, eps=1e-3):
+    """True when cnvkit's biweight midvariance sits on its `sum(w[inliers]) == 0.0` switch: the inlier weights cancel
+    exactly or to rounding, so a perturbation of the data at the 1e-16 level selects the other formula."""
+    a = np.asarray(xs, dtype=float)
+    if len(a) < 2:
+        return False
+    for loc in biweight_location_candidates(a):
+        d = a - loc
+        m = float(np.median(np.abs(d)))
+        u = d / max(c * m, eps)
+        keep = np.abs(u) < 1.0
+        scale = float(np.abs(u[keep]).sum())
+        if scale > 0 and abs(float(u[keep].sum())) <= 1e-9 * scale:
+            return True
+    return False
